@@ -70,17 +70,38 @@ def run(ctx):
     ctx.require(sites >= 5, "fewer than 5 flush call sites found (%d)" % sites)
 
     # ------------------------------------------------------------ R04.c
-    got, ns, w, pre = call_watcher_outcome(ctx, False, False, True, True, prequeued="same")
+    cwc = ctx.facts.cfg(cw)
+    apps = [nd for nd in cwc.live_nodes() for c in calls_in(nd) if isinstance(c.func, ast.Attribute) and c.func.attr == "append"
+            and ctx.facts.field_of(c.func.value, {}) == "_state_watchers"]
+    ctx.require(apps, "_call_watcher no longer appends to the watcher queue")
+    by_equality = None
+    for nd in apps:
+        for d in cwc.dominating(nd):
+            if d.kind == "br":
+                for cmpn in ast.walk(d.ast):
+                    if isinstance(cmpn, ast.Compare) and isinstance(cmpn.ops[0], (ast.In, ast.NotIn, ast.Eq, ast.NotEq)) \
+                            and any(ctx.facts.field_of(x, {}) == "_state_watchers" for x in ast.walk(cmpn) if isinstance(x, ast.Attribute)):
+                        by_equality = (nd, cmpn)
+    if by_equality:
+        ctx.fail("R04.c", cw, by_equality[0],
+                 "queued watchers are de-duplicated with `%s` (equality of the Watcher tuples), not by identity: two separately registered "
+                 "watchers with equal fields are queued once and only one of them runs at the flush" % norm(by_equality[1]),
+                 key=cw.qualname + "::dedup-by-equality",
+                 input="watch the same callback twice on the same parameter; inside batch_call_watchers set it once -> callback runs once instead of twice")
+        got = None
+    else:
+        got, ns, w, pre = call_watcher_outcome(ctx, False, False, True, True, prequeued="same")
     ctx.abstract_cases += 2
-    if got == "queue" and len(ns.attrs["_state_watchers"]) == 1 and len(ns.attrs["_events"]) == 1:
-        ctx.ok("R04.c", cw, cw.node, "a watcher already queued (same object) is not queued twice; its event is")
-    else:
-        ctx.fail("R04.c", cw, cw.node, "a watcher that is already queued is queued again (it would run twice at the flush)", key=cw.qualname + "::requeue")
-    got, ns, w, pre = call_watcher_outcome(ctx, False, False, True, True, prequeued="other")
-    if got == "queue" and len(ns.attrs["_state_watchers"]) == 2 and ns.attrs["_state_watchers"][-1] is w:
-        ctx.ok("R04.c", cw, cw.node, "a different watcher is appended after the queued ones (queue order preserved)")
-    else:
-        ctx.fail("R04.c", cw, cw.node, "a second, different watcher is not queued (de-duplication is not by identity)", key=cw.qualname + "::dedup-not-identity")
+    if got is not None:
+        if got == "queue" and len(ns.attrs["_state_watchers"]) == 1 and len(ns.attrs["_events"]) == 1:
+            ctx.ok("R04.c", cw, cw.node, "a watcher already queued (same object) is not queued twice; its event is")
+        else:
+            ctx.fail("R04.c", cw, cw.node, "a watcher that is already queued is queued again (it would run twice at the flush)", key=cw.qualname + "::requeue")
+        got, ns, w, pre = call_watcher_outcome(ctx, False, False, True, True, prequeued="other")
+        if got == "queue" and len(ns.attrs["_state_watchers"]) == 2 and ns.attrs["_state_watchers"][-1] is w:
+            ctx.ok("R04.c", cw, cw.node, "a different watcher is appended after the queued ones (queue order preserved)")
+        else:
+            ctx.fail("R04.c", cw, cw.node, "a second, different watcher is not queued (de-duplication is not by identity)", key=cw.qualname + "::dedup-not-identity")
     fl = ctx.repo.func(P + "Parameters._batch_call_watchers")
     fc = ctx.facts.cfg(fl)
     maps = [st for st in walk_stmts(fl.node) if isinstance(st, ast.Assign) and any(isinstance(c, (ast.ListComp, ast.DictComp, ast.GeneratorExp)) for c in ast.walk(st.value))
